@@ -188,3 +188,39 @@ ob(name='list_prims.shapes_cover', kind='FC', props=['C14'], unit='list_prims', 
 ob(name='list_prims.mock_move', kind='FC+', props=['C14'], unit='list_prims', harness='h_list_prims.c', entry='p_exps_move', unwind=4,
    variants=[('A%dS%d' % (na, ns), {'NA': na, 'NS': ns}) for na in (0, 1, 2) for ns in (0, 1, 2)], min_reach=0,
    bound='active and saturated lists of 0..2 expectations each (the move touches only the two sentinels and their neighbours: list_elem::operator=(&&) contract)')
+
+# ----------------------------------------------------------------------------------------------
+# unit matchers: scalar matchers and combinators through the library's own entry param_matches<M,U> (C10)
+UNITS['matchers'] = {
+    'opaque': [r'6vp_absILi\dEE7matchesERKi'], 'dyn_types': [],
+    'roots': {
+        "PM_NOT": "13param_matchesINS_11not_matcherIN14vp_trompeloeil6vp_absILi1EEEEESt17reference_wrapperIiEE",
+        "PM_DEREF": "13param_matchesINS_9ptr_derefIN14vp_trompeloeil6vp_absILi1EEEEESt17reference_wrapperIPiEE",
+        "PM_ANY1": "13param_matchesINS_17predicate_matcherINS_4impl14any_of_checkerE.*JN14vp_trompeloeil6vp_absILi1EEEEEEJS8_EEESt17reference_wrapperIiEE",
+        "PM_ANY2": "13param_matchesINS_17predicate_matcherINS_4impl14any_of_checkerE.*vp_absILi1EEENS7_ILi2EEEEEEJS8_S9_EEESt17reference_wrapperIiEE",
+        "PM_ANY3": "13param_matchesINS_17predicate_matcherINS_4impl14any_of_checkerE.*vp_absILi1EEENS7_ILi2EEENS7_ILi3EEEEEEJS8_S9_SA_EEE",
+        "PM_ALL3": "13param_matchesINS_17predicate_matcherINS_4impl14all_of_checkerE.*vp_absILi1EEENS7_ILi2EEENS7_ILi3EEEEEEJS8_S9_SA_EEE",
+        "PM_NONE3": "13param_matchesINS_17predicate_matcherINS_4impl15none_of_checkerE.*vp_absILi1EEENS7_ILi2EEENS7_ILi3EEEEEEJS8_S9_SA_EEE",
+        "PM_ANY_VAL": "13param_matchesINS_17predicate_matcherINS_4impl14any_of_checkerE.*JiN14vp_trompeloeil6vp_absILi1EEEEEEJiS8_EEE",
+        "PM_ANY0": "13param_matchesINS_17predicate_matcherINS_4impl14any_of_checkerENS2_14any_of_printerENS_18duck_typed_matcherIS3_JEEEJEEE",
+        "PM_ALL0": "13param_matchesINS_17predicate_matcherINS_4impl14all_of_checkerENS2_14all_of_printerENS_18duck_typed_matcherIS3_JEEEJEEE",
+        "PM_NONE0": "13param_matchesINS_17predicate_matcherINS_4impl15none_of_checkerENS2_15none_of_printerENS_18duck_typed_matcherIS3_JEEEJEEE",
+        "PM_EQ": "13param_matchesINS_17predicate_matcherINS_7lambdas5equalENS2_13equal_printerENS_18duck_typed_matcherIS3_JiEEEJiEEESt17reference_wrapperIiEE",
+        "PM_NE": "13param_matchesINS_17predicate_matcherINS_7lambdas9not_equalE.*18duck_typed_matcherIS3_JiEEEJiEEESt17reference_wrapperIiEE",
+        "PM_LT": "13param_matchesINS_17predicate_matcherINS_7lambdas4lessENS2_12less_printerENS_18duck_typed_matcherIS3_JiEEEJiEEESt17reference_wrapperIiEE",
+        "PM_LE": "13param_matchesINS_17predicate_matcherINS_7lambdas10less_equalE.*18duck_typed_matcherIS3_JiEEEJiEEESt17reference_wrapperIiEE",
+        "PM_GT": "13param_matchesINS_17predicate_matcherINS_7lambdas7greaterENS2_15greater_printerENS_18duck_typed_matcherIS3_JiEEEJiEEESt17reference_wrapperIiEE",
+        "PM_GE": "13param_matchesINS_17predicate_matcherINS_7lambdas13greater_equalE.*18duck_typed_matcherIS3_JiEEEJiEEESt17reference_wrapperIiEE",
+        "PM_EQ_T": "13param_matchesINS_17predicate_matcherINS_7lambdas5equalENS2_13equal_printerENS_13typed_matcherIiEEJiEEE",
+        "PM_LT_T": "13param_matchesINS_17predicate_matcherINS_7lambdas4lessENS2_12less_printerENS_13typed_matcherIiEEJiEEE",
+        "PM_WILD": "13param_matchesINS_8wildcardESt17reference_wrapperIiEE",
+        "PM_ANYT": "13param_matchesINS_17predicate_matcherINS_7lambdas13any_predicateE",
+        "PM_VALUE": "13param_matchesIiSt17reference_wrapperIiEE",
+        "PM_MEMBER": "13param_matchesINS_17predicate_matcherINS_4impl17member_is_matcherI.*6vp_absILi1EEE",
+        "PM_RE": "13param_matchesINS_17predicate_matcherINS_7lambdas11regex_checkE"
+},
+}
+for e in ('m_eq', 'm_ne', 'm_lt', 'm_le', 'm_gt', 'm_ge', 'm_eq_typed', 'm_lt_typed', 'm_value', 'm_wildcard', 'm_not', 'm_deref', 'm_any_of', 'm_all_none_of', 'm_any_of_value', 'm_member_is', 'm_re'):
+    ob(name='matchers.%s' % e[2:], kind='FC+', props=['C10'], unit='matchers', harness='h_matchers.c', entry=e, unwind=5,
+       bound='none: loop-free, full 32-bit argument and operand domain; combinators over abstract operand matchers (arity <= 3 as instantiated)')
+LEVELS['C10'] = 'proof'
